@@ -21,10 +21,20 @@
    These are the *local* facts. That the flags a removal leaves different are dead at that point
    of the function (e.g. N/Z after a removed `LDA`) is a property of the surrounding code; it is
    NOT proved for all programs (it was false for the pinned optimiser — see the regression
-   witnesses `inc_updates_flags_witness` and `inline_is_a_barrier_witness`) and is decided per
-   program by co-execution of -O0 against -O1..3 in the check.
+   witnesses `inc_updates_flags_witness` and `inline_is_a_barrier_witness`).  It is decided per
+   function by a *proved* translation validator (CV.Valid):
+   * `validated_function_equivalent`  if `validate orig opt` accepts the pair (the function before and
+                        after optimisation, as loaded from the real compiler's output), then from every
+                        machine state, and whatever the instructions outside the reasoned set do, `orig`
+                        returns in state r exactly when `opt` does — all registers, flags, stack pointer
+                        and memory equal.  No bound on the number of steps; loops included.
+   * `validator_accepts_example` / `validator_rejects_example`  the validator is neither empty nor total.
+   The check runs `validate` on every function the real optimiser produced; a function the validator does
+   not accept is not a violation (it is counted as uncertified and covered by co-execution of -O0 against
+   -O1..3 only).
 -/
 import CV.Proofs.OptLemmas
+import CV.Proofs.ValidCorr
 set_option linter.unusedSimpArgs false
 namespace CV.C02
 open CV
@@ -151,5 +161,41 @@ theorem inline_is_a_barrier_witness :
 
 /-! non-vacuity -/
 example : ∃ s1, (default : Cpu).exec .STA (.mem 0x80) = some s1 ∧ Direct (.mem 0x80) := ⟨_, rfl, trivial⟩
+
+
+/-! ### translation validation of one optimised function -/
+
+/-- **the validator is sound.** `orig` and `opt` are the line vectors of one function before and after
+    optimisation (same length: the optimiser replaces lines by dummies and exchanges neighbours, it never moves
+    anything else).  `extF i` is the effect of the instruction at line `i` when it is outside the reasoned
+    set (JSR, PHA/PLA, BIT, indirect jumps …): any function of the machine state, the same in both programs.
+    If the validator accepts, the two programs return in the same state or not at all. -/
+theorem validated_function_equivalent (extF : Nat → Cpu → Cpu) (orig opt : Valid.VCode)
+    (h : Valid.validate orig opt = true) (s r : Cpu) :
+    (∃ n, Valid.run extF orig n 0 s = some r) ↔ (∃ m, Valid.run extF opt m 0 s = some r) :=
+  Valid.validate_sound extF orig opt h s r
+
+/-- the facts the validator computes are true of every state that reaches the line (one instruction) -/
+theorem validator_facts_sound (K : Valid.Facts) (mn : Mn) (o : Opd) (s s' : Cpu) (hs : Valid.supported mn = true)
+    (hK : K.holds s) (he : s.exec mn o = some s') : (Valid.xfer K mn o).holds s' :=
+  Valid.xfer_sound K mn o s s' hs hK he
+
+/-- an instruction the validator lets go leaves everything that is still read unchanged -/
+theorem validator_removal_sound (K : Valid.Facts) (D : Valid.Res → Bool) (mn : Mn) (o : Opd) (s1 s2 s1' : Cpu)
+    (hK : K.holds s1) (hag : Valid.Agree D s1 s2) (hrem : Valid.removable K D mn o = true)
+    (he : s1.exec mn o = some s1') : Valid.Agree D s1' s2 :=
+  Valid.removable_sound K D mn o s1 s2 s1' hK hag hrem he
+
+def exOrig : Valid.VCode :=
+  [.ins .LDA (.imm 1), .ins .STA (.mem 0x80), .ins .LDA (.mem 0x80), .ins .STA (.mem 0x81), .rts]
+def exOpt : Valid.VCode :=
+  [.ins .LDA (.imm 1), .ins .STA (.mem 0x80), .dummy, .ins .STA (.mem 0x81), .rts]
+def exWrong : Valid.VCode :=
+  [.ins .LDA (.imm 1), .dummy, .ins .LDA (.mem 0x80), .ins .STA (.mem 0x81), .rts]
+
+/-- non-vacuity: a reload of a value just stored is accepted as removed … -/
+theorem validator_accepts_example : Valid.validate exOrig exOpt = true := by decide
+/-- … and the removal of the store itself is not -/
+theorem validator_rejects_example : Valid.validate exOrig exWrong = false := by decide
 
 end CV.C02
